@@ -28,6 +28,7 @@ func propC16(c *Ctx) {
 	c.ruleGlobalState("C16-GLOBAL-STATE")
 	// a serialiser that ranges over a Go map gives other bytes on the next call
 	c.ruleMapRange("C16-MAPRANGE")
+	c.ruleOnceGuardedReads("C16-ONCE-GUARDED-READS")
 }
 
 // serialiseFunctions: functions reachable from the accessors and marshal methods, Once closures cut.
